@@ -90,6 +90,19 @@ func c31Canon(v ssa.Value, d int) string {
 		return c31Canon(x.X, d+1)
 	case *ssa.ChangeType:
 		return c31Canon(x.X, d+1)
+	case *ssa.Call:
+		if b, ok := x.Call.Value.(*ssa.Builtin); ok && b.Name() == "len" && len(x.Call.Args) == 1 {
+			if fp := fieldPath(x.Call.Args[0]); fp != "" {
+				return "len:" + accessPath(x.Call.Args[0])
+			}
+		}
+	case *ssa.UnOp:
+		if x.Op == token.MUL {
+			if fa, ok := x.X.(*ssa.FieldAddr); ok && !fieldStoredIn(x.Parent(), accessPath(fa)) {
+				// two loads of a field nothing in this function writes are the same quantity
+				return "load:" + accessPath(x)
+			}
+		}
 	}
 	return fmt.Sprintf("%s@%p", v.Name(), v)
 }
@@ -690,4 +703,36 @@ func checkDecidedPagesStay(c *Ctx) {
 	if n == 0 {
 		r.OK("C31.R3", c31File, "decided pages stay", "", fmt.Sprintf("%d presence tests (even/odd look at whether a page was decided); no handler deletes from a selection set", presence), true)
 	}
+}
+
+
+var fieldStoreCache = map[*ssa.Function]map[string]bool{}
+
+// fieldStoredIn: fn (or a closure of it) stores to a field with this access path.
+func fieldStoredIn(fn *ssa.Function, ap string) bool {
+	if fn == nil {
+		return true
+	}
+	m, ok := fieldStoreCache[fn]
+	if !ok {
+		m = map[string]bool{}
+		var visit func(f *ssa.Function)
+		visit = func(f *ssa.Function) {
+			for _, b := range f.Blocks {
+				for _, i := range b.Instrs {
+					if st, ok := i.(*ssa.Store); ok {
+						if fa, ok := st.Addr.(*ssa.FieldAddr); ok {
+							m[accessPath(fa)] = true
+						}
+					}
+				}
+			}
+			for _, a := range f.AnonFuncs {
+				visit(a)
+			}
+		}
+		visit(fn)
+		fieldStoreCache[fn] = m
+	}
+	return m[ap]
 }
